@@ -411,6 +411,9 @@ def r15_9(ctx):
 
 @rule("R15.10", "C15", "the lexer drops nothing but white space: every %ignore terminal matches white-space characters only", min_instances=1)
 def r15_10(ctx):
+    from .c17 import maximal_munch_checks
+
+    maximal_munch_checks(ctx)  # ... and it does not split ++ / -- into signs (the increment would vanish into a folded unary plus)
     gm = get_grammar(ctx.env)
     ctx.need(gm.ignore, "the grammar ignores no terminal at all (white space would be significant)")
     probes = ["{ RdV = 1; /* a */ RsV = 2; /* b */ RtV = 3; }", "RdV = 1; // note\nRsV = 2;", "a /* x */ b", "#if 0\nx = 1;\n#endif", "x = \"a b\";", " \t\n", "a\\\nb", "/**/", "//", "x;;y"]
